@@ -65,7 +65,16 @@ def check_positions(run, cname, text, impl_defs, impl_usages, impl_undecl, same_
         if not cands:
             continue            # what is recorded is C03's business
         exact = [x for x in cands if x["span"] is not None and (x["span"][1], x["span"][2]) == (s, e)]
-        c = exact[0] if exact else cands[0]
+        if exact:
+            c = exact[0]
+        else:
+            # several usages of one name on one line: a usage is compared with a candidate that no
+            # other recorded usage of the line matches exactly (string-form candidates first)
+            taken = {(int(o.rsplit(":", 3)[2].split("-")[0]), int(o.rsplit(":", 3)[2].split("-")[1]))
+                     for o in impl_usages if o.rsplit(":", 3)[3] == name and int(o.rsplit(":", 3)[1]) == line}
+            free = [x for x in cands if x["span"] is None or (x["span"][1], x["span"][2]) not in taken]
+            free.sort(key=lambda x: x["span"] is not None)
+            c = (free or cands)[0]
         if c["span"] is None:
             if c["kind"] == "indirect-all":
                 if "," in lt[lt.find("parametrize"):] and len([x for x in want if x[1] == line]) > 1:
